@@ -37,6 +37,53 @@ def _mentions_mask(node, var=None):
     return False
 
 
+def _thread_local_boundary(ctx, mod):
+    n = 0
+    for cname in ("Env", "InternalEnvironDict"):
+        cls = mod.cls(cname)
+        ms = class_methods(cls)
+        init = ms.get("__init__")
+        tl = {t.attr for x in (walk_local(init) if init is not None else []) if isinstance(x, ast.Assign) and isinstance(x.value, ast.Call) and call_name(x.value) == "threading.local" for t in x.targets if isinstance(t, ast.Attribute) and unparse(t.value) == "self"}
+        if not tl:
+            continue
+        # views: properties that expose a thread-local container (`_local` -> self._thread_local.__dict__, `_overlay_stack`)
+        views = {nm for nm, f in ms.items() if any("property" in unparse(d) for d in f.decorator_list) and any(isinstance(a, ast.Attribute) and a.attr in tl and unparse(a.value) == "self" for a in ast.walk(f))}
+
+        def root(e):
+            while isinstance(e, (ast.Attribute, ast.Subscript)):
+                if isinstance(e, ast.Attribute) and unparse(e.value) == "self" and (e.attr in tl or e.attr in views):
+                    return e.attr
+                e = e.value
+            return None
+
+        for nm, f in ms.items():
+            if nm in views or nm == "__init__":
+                continue
+            defs = df.all_defs(f)
+            params = {a_.arg for a_ in f.args.args[1:] + f.args.kwonlyargs}
+            if not nm.startswith("_"):
+                for r in [r for r in walk_local(f) if isinstance(r, ast.Return) and r.value is not None]:
+                    v = r.value
+                    if isinstance(v, ast.Name) and len(defs.get(v.id, [])) == 1 and defs[v.id][0].value is not None:
+                        v = defs[v.id][0].value
+                    rt = root(v) if _uncopy(v) is v else None
+                    if root(_uncopy(v)) is not None or rt is not None:
+                        n += 1
+                        ctx.ob("R5", f"{EN}:{cname}.{nm}", f"`{short(r, 50)}` hands out thread-local state as a copy", rt is None, key=f"{cname}.{nm}|thread-local-container-escapes", where=loc(r), detail=None if rt is None else f"`self.{rt}` is the calling thread's own container: whoever receives it shares every later push/pop/update with this thread")
+            for a in [x for x in walk_local(f) if isinstance(x, ast.Assign)]:
+                for t in a.targets:
+                    # (the container itself - `self.<local>.stack = x` - not an element stored under a key of a view)
+                    if isinstance(t, (ast.Attribute, ast.Subscript)) and root(t) in tl and isinstance(a.value, ast.Name) and a.value.id in params:
+                        n += 1
+                        ctx.ob("R5", f"{EN}:{cname}.{nm}", f"`{short(a, 50)}` installs a copy of what the caller passed", False, key=f"{cname}.{nm}|caller-object-adopted-as-thread-local", where=loc(a), detail=f"the parameter `{a.value.id}` becomes this thread's state by reference: two threads then mutate one object")
+            # in-place installation (`local.clear(); local.update(param)`) copies the content: fine, counted as an instance
+            if any(isinstance(c.func, ast.Attribute) and c.func.attr == "update" and c.args and isinstance(c.args[0], ast.Name) and c.args[0].id in params and (root(c.func.value) is not None or (isinstance(c.func.value, ast.Name) and any(d.value is not None and root(d.value) is not None for d in defs.get(c.func.value.id, [])))) for c in calls_in(f)):
+                n += 1
+                ctx.ob("R5", f"{EN}:{cname}.{nm}", "installs the caller's values by copying them into the thread's own container", True, key=f"{cname}.{nm}|install-by-copy")
+    if n < 2:
+        raise AnalysisError(f"{EN}: only {n} thread-local hand-over sites found (get_local_overrides / set_local_overrides expected)")
+
+
 def _through_predicates(facts, meths):
     """facts with calls of argument-less predicate methods of the class (`self._sees_private_values()`, one `return <expr>`)
     replaced by what the returned expression implies (`bool(A or B)` false -> A false, B false)"""
@@ -71,6 +118,7 @@ def check(ctx):
     ctx.rule("R1", "Env.swap captures each key before setting it, writes only thread-locally, and restores every captured key and the overlay in a finally that every exit passes", floor=8)
     ctx.rule("R2", "every read path compares a value taken from an overlay or the store with DELETE_VAR before returning/yielding/exporting it, and resolves a key by the top-most layer that contains it", floor=8)
     ctx.rule("R3", "worker threads read the spawner's swapped values before start() and install them before any other environment access in run()", floor=4)
+    ctx.rule("R5", "thread-local state crosses a thread boundary only as a copy: no public method of Env / its dict hands out a thread-local container itself, and none installs a caller's object as thread-local state", floor=2)
     ctx.rule("R4", "thread-local environment data does not flow into state shared between threads", floor=1)
 
     mod = ctx.repo.module(EN)
@@ -295,6 +343,7 @@ def check(ctx):
     copies = glo is not None and any(isinstance(r, ast.Return) and r.value is not None and _uncopy(r.value) is not r.value and "_local" in unparse(_uncopy(r.value)) for r in walk_local(glo))
     ok = "_local" in im and "self._thread_local.__dict__" in unparse(im["_local"]) and copies
     ctx.ob("R3", f"{EN}:InternalEnvironDict", "the override layer is a threading.local dict; the view handed to a worker is a copy", ok, key="ied|local-shape")
+    _thread_local_boundary(ctx, mod)
     slo = im.get("set_local_overrides")
     ok = slo is not None and "clear()" in unparse(slo) and "update(" in unparse(slo)
     ctx.ob("R3", f"{EN}:InternalEnvironDict.set_local_overrides", "installing a view replaces the thread's own layer only", ok, key="ied|install-shape")
@@ -359,4 +408,5 @@ META = {
     "no local overrides. Schedules themselves are not explored.",
     "note": "Decides the listed structural clauses, not the behaviour. Trusted: threading.local isolation, "
     "contextlib.contextmanager semantics (generator close raises at the yield).",
+    "more": "Thread-local containers cross a thread boundary only as copies (no public method returns one uncopied or adopts a caller's object).",
 }
